@@ -108,8 +108,17 @@ func genC32(t *rapid.T) c32Case {
 	return c
 }
 
+// c32Content is what an accepted request transaction asked for, as the harness built it (never decoded
+// by the contract's codecs): the effect of the approval is compared with it.
+type c32Content struct {
+	rec   scRec
+	addrs []common.Address
+	keys  []string
+}
+
 type c32Model struct {
 	appr        map[string]map[common.Address]bool // method|request -> accepted approvers
+	content     map[string]c32Content              // method|request -> content of the latest accepted request
 	interleaved bool
 	outsider    bool
 	fires       int
@@ -127,7 +136,7 @@ func runC32(ctx *ev.Ctx, c c32Case) {
 		e.label("blocks-persisted")
 	}
 	e.label(fmt.Sprintf("ownership-layout:%d", mod(c.Own, 5)))
-	m := &c32Model{appr: map[string]map[common.Address]bool{}}
+	m := &c32Model{appr: map[string]map[common.Address]bool{}, content: map[string]c32Content{}}
 	for _, top := range c.Ops {
 		for _, op := range e.expand(top) {
 			if isApprove(op.K) {
@@ -137,6 +146,18 @@ func runC32(ctx *ev.Ctx, c c32Case) {
 			sr := e.exec(op)
 			if sr.res.Panic != "" {
 				ctx.Failf("%s panicked: %s", op.K, sr.res.Panic)
+			}
+			if ak, ok := requestOf[op.K]; ok && sr.res.OK() {
+				var ct c32Content
+				switch op.K {
+				case kScReg, kScUpd:
+					ct.rec = scRecOfParam(scContent(sr.t.id, sr.acting, op.C))
+				case kRlReg, kRlRem:
+					ct.addrs = e.acctList(op.L)
+				case kSvReg, kSvRem:
+					ct.keys = e.svList(op.L)
+				}
+				m.content[ak+"|"+sr.t.req] = ct
 			}
 		}
 	}
@@ -155,7 +176,7 @@ func c32Approve(e *eng, m *c32Model, op gop) {
 	ctx := e.ctx
 	t := e.targetOf(op.K, op)
 	pre := e.pool()
-	cons, _, n := pre.consensus()
+	cons, _, n := e.validators() // the harness's own pool bookkeeping (cross-checked against the contract's pool)
 	thr := ceil2of3(n)
 	pending, pendKnown := e.pendingOf(op.K, t)
 	// content of the pending request (for the effect check)
@@ -261,6 +282,31 @@ func c32Approve(e *eng, m *c32Model, op gop) {
 	}
 	delete(m.appr, key)
 	e.label("effect:" + op.K)
+	ct, seen := m.content[key]
+	if !seen && pendKnown {
+		ctx.Failf("harness-model mismatch: %s took effect but the harness never saw an accepted request transaction for it", what)
+	}
+	// the request as the contract's own getters decoded it must be the request the harness sent
+	switch op.K {
+	case kScApprReg:
+		if preApply != ct.rec {
+			ctx.Failf("%s: pending request read back as %v, the accepted request transaction asked for %v", what, preApply, ct.rec)
+		}
+	case kScApprUpd:
+		if preUpd != ct.rec {
+			ctx.Failf("%s: pending update read back as %v, the accepted request transaction asked for %v", what, preUpd, ct.rec)
+		}
+	case kRlApprReg, kRlApprRem:
+		if fmt.Sprint(preAddrs) != fmt.Sprint(ct.addrs) {
+			ctx.Failf("%s: pending list read back as %v, the accepted request transaction listed %v", what, preAddrs, ct.addrs)
+		}
+		preAddrs = ct.addrs
+	case kSvApprReg, kSvApprRem:
+		if fmt.Sprint(preKeys) != fmt.Sprint(ct.keys) {
+			ctx.Failf("%s: pending list read back as %v, the accepted request transaction listed %v", what, preKeys, ct.keys)
+		}
+		preKeys = ct.keys
+	}
 	switch op.K {
 	case kApprCand:
 		it, ok := e.pool().Items[t.pub]
@@ -278,13 +324,15 @@ func c32Approve(e *eng, m *c32Model, op gop) {
 			}
 		}
 	case kScApprReg:
-		if got := e.scRegistered(t.id); got != preApply {
-			ctx.Failf("%s took effect: registered record %v differs from the pending request %v", what, got, preApply)
+		if got := e.scRegistered(t.id); got != ct.rec {
+			ctx.Failf("%s took effect: registered record %v differs from the approved request %v", what, got, ct.rec)
 		}
+		e.scStoredCheck(what, ct.rec)
 	case kScApprUpd:
-		if got := e.scRegistered(t.id); got != preUpd {
-			ctx.Failf("%s took effect: registered record %v differs from the pending update %v", what, got, preUpd)
+		if got := e.scRegistered(t.id); got != ct.rec {
+			ctx.Failf("%s took effect: registered record %v differs from the approved update %v", what, got, ct.rec)
 		}
+		e.scStoredCheck(what, ct.rec)
 	case kScApprQuit:
 		if got := e.scRegistered(t.id); got.Present {
 			ctx.Failf("%s took effect but the chain is still registered: %v", what, got)
